@@ -213,10 +213,14 @@ def run_scenario(sc):
             w.open("R", sim.loop.ms)
 
         def gen(self_, zc_, now, qt):
+            out = o_gen(self_, zc_, now, qt)
             if self_ is info and w.cur is not None:
                 w.cur["asked"] = 1 if qt is DNSQuestionType.QU else 2
                 w.cur["gen_now"] = int(now)
-            return o_gen(self_, zc_, now, qt)
+                # known answers are read off the DNSOutgoing object: the generator also plants address records of
+                # impossible lengths, which would not survive the wire; questions and QU bits are read off the datagram
+                w.cur["known"] = sorted(ident_line(r) for r, _ in out.answers)
+            return out
 
         def res(futs):
             if futs:
@@ -256,7 +260,7 @@ def run_scenario(sc):
 # model line / implementation observation strings
 
 
-def parse_sent(datagrams):
+def parse_sent(datagrams, known=None):
     from zeroconf import DNSIncoming
 
     if not datagrams:
@@ -265,12 +269,12 @@ def parse_sent(datagrams):
         return "multi:%d" % len(datagrams), None
     m = DNSIncoming(bytes.fromhex(datagrams[0]))
     qs = sorted(q_ident(q) for q in m.questions)
-    ans = sorted(ident_line(r) for r in m.answers())
+    ans = sorted(ident_line(r) for r in m.answers()) if known is None else known
     return (";".join(qs) or "-") + "#" + (";".join(ans) or "-"), m
 
 
 def impl_line(b):
-    sent, _ = parse_sent(b["sent"])
+    sent, _ = parse_sent(b["sent"], b.get("known"))
     w = b["wait"]
     if w is not None:
         w = str(int(w)) if float(w) == int(w) else repr(w)
@@ -578,7 +582,9 @@ def check_cases(cases, res, ctx, label):
         if i < 2:
             res.sample({"scenario": {k: sc[k] for k in ("timeout", "forced")}, "blocks": [impl_line(b) for b in obs["blocks"]][:6]})
         for sig, what in oracle(sc, obs):
-            res.violate(sig, what, sc)
+            res.count("oracle:" + sig)
+            if res.dist["oracle:" + sig] <= 5:    # a few cases per signature: a frequent (known) one must not crowd out a rare one
+                res.violate(sig, what, sc)
         if model is not None and not obs.get("spinning"):
             impl = [impl_line(b) for b in obs["blocks"]]
             mod = model[i].split(" | ")
